@@ -18,6 +18,8 @@ Purity is corr-only: a runtime monitor, no theorem.
 import itertools
 import random
 
+import copy
+
 import numpy as np
 
 from pwlib.share import shcopy
@@ -404,7 +406,72 @@ def run_once(entry, selfkind, shapes, seed, obs, label):
         else:
             if not same_result(res, res2):
                 obs["determinism"].append("%s returned two different results for the same arguments" % label)
+        # the caller owns what it was handed: it edits the returned arrays / documents in place and asks the same
+        # object again -- the answer must be the one it got before (a result handed out by reference from a cache, a
+        # module-level constant or the object's own state fails here)
+        if not entry.no_purity:
+            try:
+                saved = copy.deepcopy(res)
+            except Exception:
+                saved = None
+            mine = [v for v in A.values() if isinstance(v, np.ndarray)]
+            mine += [v for k, v in (vars(S).items() if hasattr(S, "__dict__") else []) if isinstance(v, np.ndarray)]
+            if isinstance(S, tuple):
+                for s_ in S:
+                    mine += [v for v in (vars(s_).values() if hasattr(s_, "__dict__") else []) if isinstance(v, np.ndarray)]
+            if saved is not None and edit_result(res, mine):
+                # control: the same two calls on a fresh receiver without the edit in between (a method that appends to its
+                # receiver legitimately answers differently the second time -- in both histories alike)
+                try:
+                    Sc = make_self(selfkind)
+                    Ac = build_args(entry, shapes, Sc, seed)
+                    entry.call(Ac, Sc)
+                    control = ("ok", entry.call(Ac, Sc))
+                except Exception as e:  # noqa: BLE001
+                    control = ("err", type(e).__name__)
+                try:
+                    again = ("ok", entry.call(A, S))
+                except Exception as e:  # noqa: BLE001
+                    again = ("err", type(e).__name__)
+                if again[0] != control[0] or (again[0] == "err" and again[1] != control[1]) or \
+                        (again[0] == "ok" and not same_result(control[1], again[1])):
+                    obs["determinism"].append("%s answers differently the second time when the caller has edited, in place, the "
+                                              "result of the first call (handed out by reference): %s instead of %s" % (
+                                                  label, "raised " + again[1] if again[0] == "err" else "a different result",
+                                                  "raising " + control[1] if control[0] == "err" else "the result of an unedited history"))
     return tag
+
+
+def edit_result(res, mine, depth=0):
+    """in-place edits of everything in a result that the caller owns: writable arrays that do not share memory with an
+    argument or with a public array attribute of the receiver, plain lists / dicts (documents).  -> anything edited?"""
+    if depth > 4:
+        return False
+    if isinstance(res, np.ndarray):
+        if res.size == 0 or not res.flags.writeable or res.dtype == object:
+            return False
+        if any(np.may_share_memory(res, m) for m in mine):
+            return False
+        try:
+            if res.dtype == bool:
+                res[...] = ~res
+            else:
+                res[...] = 77
+        except Exception:
+            return False
+        return True
+    if isinstance(res, (tuple, list)):
+        done = [edit_result(x, mine, depth + 1) for x in res]
+        if isinstance(res, list) and res and all(isinstance(x, (int, float)) and not isinstance(x, bool) for x in res):
+            for i in range(len(res)):
+                res[i] = res[i] + 1.0
+            return True
+        return any(done)
+    if isinstance(res, dict):
+        done = [edit_result(v, mine, depth + 1) for v in res.values()]
+        res["edited-by-the-caller"] = True
+        return True or any(done)
+    return False
 
 
 def describe(entry, shapes):
